@@ -113,6 +113,14 @@ def rand_tx(rng, kind=None, big=False):
         tx["maxFeePerGas"] = boundary_u256(rng)
         tx["chainId"] = rand_chain_id(rng)
         tx["accessList"] = rand_access_list(rng, big)
+    if rng.random() < 0.15:
+        # two fields with the same value (nonce = gas, value = gasPrice, chainId = nonce, ...): nothing may depend on that
+        fs = [f for f in NUM_FIELDS[tx["kind"]] if tx.get(f) is not None]
+        a, b = rng.sample(fs, 2)
+        if not (tx["kind"] == LEGACY and b == "chainId" and tx[a] > (2**256 - 37) // 2):
+            tx[b] = tx[a]
+        if rng.random() < 0.3:
+            tx["value"] = len(tx["data"])
     if tx["kind"] != LEGACY and rng.random() < 0.2:
         # entries that coincide with other parts of the transaction: the recipient itself, the zero address, with and without keys
         al = list(tx["accessList"])
